@@ -362,7 +362,7 @@ pub fn main() {
     ck.assume("buffer sizes start at L = (longest line content + 1): the line plus one newline; the last line of a log without final newline needs its preceding newline in the window");
     ck.assume(&format!("git-written: {}; identities and messages are compared to what `git log -g --date=raw` prints (%gn %ge %gd %gs), ids to the values given to update-ref", Git::version()));
 
-    ck.sub("roundtrip", SubCfg::new(6_000, 150_000).max_len(4096), |t, c| {
+    ck.sub("roundtrip", SubCfg::new(6_000, 150_000).max_len(4096).max_shrink(3000), |t, c| {
         let (lines, alpha) = gen_lines(t);
         let strip_final_newline = t.chance(24);
         hash_lines(c, &lines);
@@ -400,6 +400,7 @@ pub fn main() {
         c.label_if(lines.iter().any(|l| l.message.contains(&b'>')), "has-gt-in-message");
         c.label_if(lines.iter().any(|l| l.message.last() == Some(&b'\r')), "has-trailing-cr");
         c.label_if(lines.iter().any(|l| l.message.is_empty()), "has-empty-message");
+        c.label_if(lines.iter().any(|l| l.message.to_str().is_err()), "has-non-utf8-message");
         c.label_if(lines.iter().any(|l| l.message.len() >= 500), "has-long-message");
         c.label_if(lines.iter().any(|l| l.signature.name.contains(&b'\t')), "tab-in-name");
         let sliding = sizes.iter().any(|s| *s < bytes.len());
@@ -426,7 +427,7 @@ pub fn main() {
         f.report(c);
     });
 
-    ck.sub("store-append", SubCfg::new(1_500, 40_000).max_len(1024), |t, c| {
+    ck.sub("store-append", SubCfg::new(1_500, 40_000).max_len(1024).max_shrink(1500), |t, c| {
         use gix_ref::transaction::{Change, LogChange, PreviousValue, RefEdit, RefLog};
         let alpha = *t.pick(&[
             MsgAlpha::Plain,
@@ -593,7 +594,7 @@ pub fn main() {
             let secs = match t.below(3) {
                 // not 0: git's own reflog reader takes a zero timestamp for a corrupt line and skips the entry
                 0 => t.range(1, 9) as u64,
-                1 => t.range_i64(0, 4_000_000_000) as u64,
+                1 => t.range_i64(1, 4_000_000_000) as u64, // never 0, see above (an exhausted tape yields the lower bound)
                 _ => 1_112_911_993,
             };
             let tz = match t.below(3) {
